@@ -144,6 +144,9 @@ class Driver:
                            if not any(a in w.daemon.mempool for a, _ in t.prevouts())]
             else:
                 include = [t for t in w.daemon.mempool.values() if rng.random() < include_mp]
+            if op.get('burn'):
+                tip = w.gen.make_block(tip, rng, 0, include=(), collide=False, burn=True)
+                continue
             tip = w.gen.make_block(tip, rng, ntxs[i % len(ntxs)], include=include,
                                    big_at=op.get('big_at'), big=op.get('big', 0))
         w.daemon.set_tip(tip)
